@@ -17,7 +17,8 @@ RULE = ("random point clouds (3..30 points, 1-D and 2-D arrays, coordinate scale
         "Coq evaluates the normal-equation residual of the property's objective exactly and requires it below 2^-30 of its "
         "floating-point evaluation bound (holds) and the predictions to equal Jacobian x parameters (agree). Metamorphic streams: "
         "parameters fitted with weights x constant must pass the certificate of the original problem; parameters fitted with one "
-        "weight = 1e-12 (outlier datum) must pass the certificate of the problem without that datum. Undamped systems with "
+        "weight = 1e-12 (outlier datum) must pass the certificate of the problem without that datum; 4 fixed DAMPED cases of the same "
+        "comparison (far-away datum, weight 1e-14) exhibit known finding F18. Undamped systems with "
         "condition number > 1e12 and damped systems with a nearly constant column are emitted as skips and counted. "
         "Non-trivial = certificate actually evaluated; distinct = distinct (estimator, configuration, cloud).")
 ASSUMPTIONS = [
@@ -337,9 +338,9 @@ def gen_weight_to_zero(rnd, i):
 
 
 def gen_damped_weight_to_zero(rnd, i):
-    """OPT-IN (VERIF_C02_FINDINGS=1), not part of the default run: a DAMPED spline with separate forces, one datum far from
-    the cloud with weight 1e-14.  The fit must be the fit of the problem without the datum - it is not, because
-    StandardScaler computes the column scale from all Jacobian rows, unweighted (reported finding)."""
+    """known finding F18 (fixed inputs: called with its own fixed-seed generator): a DAMPED spline with separate forces, one
+    datum far from the cloud with weight 1e-14.  The fit must be the fit of the problem without the datum - it is not,
+    because StandardScaler computes the column scale from all Jacobian rows, unweighted."""
     n = rnd.randint(12, 24)
     e = np.array([rnd.random() for _ in range(n)])
     nn = np.array([rnd.random() for _ in range(n)])
@@ -362,13 +363,14 @@ def gen_damped_weight_to_zero(rnd, i):
 
 
 def finding_key(case):
-    if case.kind == "FINDING-damped-weight-to-zero":
+    # only the damped "weight -> 0 vs problem without the datum" comparison; every other violation alarms
+    if case.kind == "FINDING-damped-weight-to-zero" and isinstance(case.inp, dict) and "metamorphic" in case.inp \
+            and case.inp.get("config", {}).get("damping") is not None:
         return "C02-damped-fit-zero-weight-datum-still-sets-column-scale"
     return None
 
 
 def generate(tier, seed):
-    import os
     rnd = random.Random(seed)
     cases = []
     nfit = {"quick": (30, 36, 30), "thorough": (300, 360, 300)}[tier]
@@ -391,9 +393,9 @@ def generate(tier, seed):
         cases.append(gen_weights_times_constant(rnd, i))
     for i in range(nmeta[1]):
         cases.append(gen_weight_to_zero(rnd, i))
-    if os.environ.get("VERIF_C02_FINDINGS"):
-        for i in range(4):
-            cases.append(gen_damped_weight_to_zero(rnd, i))
+    frnd = random.Random(180218)     # the finding cases do not depend on the run's seed
+    for i in range(4):
+        cases.append(gen_damped_weight_to_zero(frnd, i))
     return cases
 
 
